@@ -133,36 +133,100 @@ def pairCase (ps : List String) : String :=
   else if !hasStart && first.isSome then "viol startval"
   else s!"ok total={total} first={showFirst}"
 
-/-- DoNotation / YieldFromIO: `result` is written by the effect goroutine before `wg.Done()`, and read after
-    `wg.Wait()` returned -/
-inductive WgSt | running | stored (v : Nat) | signalled (v : Nat)
-def wgStep : WgSt → Nat → WgSt
-  | .running, v => .stored v
-  | .stored v, _ => .signalled v
-  | s, _ => s
-/-- what the waiter reads once Wait has returned (only possible in `signalled`) -/
-def wgResult : WgSt → Option Nat
-  | .signalled v => some v
-  | _ => none
-def doNotation (v : Nat) : Option Nat := wgResult (wgStep (wgStep .running v) v)
+/-- `zero ty=…`: requests and yielded values equal to the zero value (0 here; the model is value-agnostic) are
+    paired like any others: one caller asks [0,5,0,6], the target yields [3,0,4,0] -/
+def zeroCase : String :=
+  let ys := [3, 0, 4, 0]
+  let s := runRR (fun seen => ys.getD seen.length 0) 5 1 64 (init (fun i => if i = 0 then [0, 5, 0, 6] else []) none)
+  if xsOf 0 s.served == [0, 5, 0, 6] && s.got 0 == ys then "ok zero" else "viol model-run"
 
-/-- lifecycle flags: Start sets isStarted before `go`, close() sets isClosed after the effect returned -/
+/-! ### DoNotation / YieldFromIO / lifecycle flags: a two-goroutine transition system
+
+    DoNotation(effect):  main:   ⟨m0: wg.Add(1)⟩ ⟨m1: cor.Start(): isStarted.Set(true); go …⟩
+                                 ⟨m2: wg.Wait() — enabled iff the counter is 0⟩ ⟨m3: return result⟩
+                         effect goroutine (exists once started):
+                                 ⟨e0: result = effect(cor)⟩ ⟨e1: wg.Done()⟩ ⟨e2: effect returned; close(): isClosed.Set(true)⟩
+    YieldFromIO(io) has the same shape: Add(1); Subscribe (OnNext = ⟨result = in⟩ ⟨wg.Done()⟩, run by the subscribing
+    goroutine itself or by the Handler the IO is observed on — some interleaving of `eff` atoms); Wait(); return result.
+    `v` = the value the effect / the IO produces; `result` starts as the zero value. -/
+inductive MPc | m0 | m1 | m2 | m3 | ret (r : Nat)
+deriving DecidableEq, Repr
+inductive EPc | idle | e0 | e1 | e2 | fin
+deriving DecidableEq, Repr
+
+structure DnSt where
+  wg : Nat := 0
+  result : Nat := 0
+  started : Bool := false
+  done : Bool := false
+  m : MPc := .m0
+  e : EPc := .idle
+
+inductive DnAct | main | eff
+deriving Repr
+
+def dnStep (v : Nat) (s : DnSt) : DnAct → Option DnSt
+  | .main =>
+    match s.m with
+    | .m0 => some { s with wg := s.wg + 1, m := .m1 }
+    | .m1 => some { s with started := true, e := .e0, m := .m2 }
+    | .m2 => if s.wg = 0 then some { s with m := .m3 } else none
+    | .m3 => some { s with m := .ret s.result }
+    | .ret _ => none
+  | .eff =>
+    match s.e with
+    | .e0 => some { s with result := v, e := .e1 }
+    | .e1 => some { s with wg := s.wg - 1, e := .e2 }
+    | .e2 => some { s with done := true, e := .fin }
+    | _ => none
+
+inductive DnReach (v : Nat) : DnSt → Prop
+  | init : DnReach v {}
+  | step {s s'} (a : DnAct) : DnReach v s → dnStep v s a = some s' → DnReach v s'
+
+/-- run a schedule (disabled atoms are skipped) -/
+def dnRun (v : Nat) : DnSt → List DnAct → DnSt
+  | s, [] => s
+  | s, a :: rest => match dnStep v s a with
+    | some s' => dnRun v s' rest
+    | none => dnRun v s rest
+
+/-- what DoNotation / YieldFromIO return on the round-robin schedule (any other schedule: `C14_doNotation`) -/
+def doNotation (v : Nat) : Option Nat :=
+  match (dnRun v {} [.main, .eff, .main, .eff, .main, .eff, .main, .eff, .main, .eff]).m with
+  | .ret r => some r
+  | _ => none
+
+/-- lifecycle flags (IsStarted, IsDone) before Start, while the effect runs, after it returned -/
 structure Flags where
   started : Bool
   done : Bool
 def flagsTrace : List Flags :=
-  let f0 : Flags := ⟨false, false⟩
-  let f1 : Flags := { f0 with started := true }      -- Start(): isStarted.Set(true); go …
-  let f2 : Flags := { f1 with done := true }         -- effect returned; close(): isClosed.Set(true)
-  [f0, f1, f2]
+  let s0 : DnSt := {}
+  let s1 := dnRun 0 s0 [.main, .main]                  -- Add; Start: the effect goroutine exists and runs
+  let s2 := dnRun 0 s1 [.eff, .eff, .eff]              -- effect returned, close() ran
+  [s0, s1, s2].map (fun s => ⟨s.started, s.done⟩)
+
+/-- `donotyf v=V`: the effect run by DoNotation is a caller like any other: one YieldFrom(target, V) against a
+    target yielding V+100 (the coroutine system above), and DoNotation returns what the effect returns -/
+def donotYf (v : Nat) : String :=
+  let s := runRR (fun _ => v + 100) 5 1 16 (init (fun i => if i = 0 then [v] else []) none)
+  match s.got 0, xsOf 0 s.served with
+  | [y], [x] => (match doNotation y with | some r => s!"ok {r} saw={x}" | none => "hang")
+  | _, _ => "viol model-run"
 
 def b01 (b : Bool) : String := if b then "b1" else "b0"
 
 def handle (line : String) : String :=
   match (line.splitOn " ").filter (· ≠ "") with
   | "pair" :: ps => pairCase ps
+  | "zero" :: _ => zeroCase
   | ["donot", p] => match doNotation ((kv [p] "v").toNat?.getD 0) with | some v => s!"ok {v}" | none => "hang"
-  | ["yfio", p] => match doNotation ((kv [p] "v").toNat?.getD 0) with | some v => s!"ok {v}" | none => "hang"
+  | "yfio" :: ps =>
+    -- the IO's value: v, or v+1 through the FlatMap chain; where it is observed and how long it takes do not matter
+    let v := (kv ps "v").toNat?.getD 0
+    match doNotation (if kv ps "flat" == "1" then v + 1 else v) with | some r => s!"ok {r}" | none => "hang"
+  | ["donotyf", p] => donotYf ((kv [p] "v").toNat?.getD 0)
   | ["flags"] => " ".intercalate (flagsTrace.map (fun f => b01 f.started ++ " " ++ b01 f.done))
   | _ => "bad-line"
 
